@@ -179,6 +179,8 @@ def replace_funcname(source: str, name: str):
 def quote_docstring(docstr: str):
     """Return a triple-quoted string literal that evaluates to ``docstr``"""
     escaped = docstr.replace("\\", "\\\\").replace('"""', '\\"\\"\\"')
+    # A carriage return in the source text would be read back as a newline
+    escaped = escaped.replace("\r", "\\r")
     if escaped.endswith('"'):
         body = escaped[:-1]
         if (len(body) - len(body.rstrip("\\"))) % 2 == 0:
